@@ -7,7 +7,7 @@
   boundaries, the ASCII-whitespace skip, window arithmetic, merge loop) is shared with
   MvModel/Snippet.lean.
 
-  MvProps/C35Chars.lean proves `computeC fx c … = compute fx c …` for every valid UTF-8 text `c`,
+  MvModel/SnippetCharsLemmas.lean proves `computeC fx c … = compute fx c …` for every valid UTF-8 text `c`,
   so the C35 theorems (stated for the byte-level model) hold for this literal transcription too.
 -/
 import MvModel.Snippet
@@ -38,6 +38,9 @@ def charIndices : Bytes → Nat → List (Nat × Nat)
               | w :: t4 =>
                 (pos, (x.toNat % 32 % 8) * 262144 + (y.toNat % 64) * 4096 + (z.toNat % 64) * 64 + w.toNat % 64)
                   :: charIndices t4 (pos + 4)
+
+/-- byte offsets at which `char_indices` reports a char -/
+def charStarts (bs : Bytes) (pos : Nat) : List Nat := (charIndices bs pos).map Prod.fst
 
 /-- `matches!(ch, '.' | '!' | '?' | '\n')` on a code point -/
 def isStartBreakCp (cp : Nat) : Bool := (Mv.Gen.C35.START_BREAKS.map UInt8.toNat).contains cp
@@ -148,5 +151,33 @@ inductive ValidUtf8 : Bytes → Prop
        (0xF1 ≤ x.toNat ∧ x.toNat ≤ 0xF3 ∧ isCont y = true) ∨
        (x.toNat = 0xF4 ∧ 0x80 ≤ y.toNat ∧ y.toNat ≤ 0x8F)) →
       isCont z = true → isCont w = true → ValidUtf8 rest → ValidUtf8 (x :: y :: z :: w :: rest)
+
+def threeOk (x y : UInt8) : Bool :=
+  (x.toNat == 0xE0 && 0xA0 ≤ y.toNat && y.toNat ≤ 0xBF) ||
+  (0xE1 ≤ x.toNat && x.toNat ≤ 0xEC && isCont y) ||
+  (x.toNat == 0xED && 0x80 ≤ y.toNat && y.toNat ≤ 0x9F) ||
+  (0xEE ≤ x.toNat && x.toNat ≤ 0xEF && isCont y)
+
+def fourOk (x y : UInt8) : Bool :=
+  (x.toNat == 0xF0 && 0x90 ≤ y.toNat && y.toNat ≤ 0xBF) ||
+  (0xF1 ≤ x.toNat && x.toNat ≤ 0xF3 && isCont y) ||
+  (x.toNat == 0xF4 && 0x80 ≤ y.toNat && y.toNat ≤ 0x8F)
+
+/-- executable well-formedness check (what `str::from_utf8` accepts) -/
+def validUtf8b : Bytes → Bool
+  | [] => true
+  | x :: t =>
+    if x.toNat < 0x80 then validUtf8b t
+    else match t with
+      | [] => false
+      | y :: t2 =>
+        if 0xC2 ≤ x.toNat ∧ x.toNat ≤ 0xDF then isCont y && validUtf8b t2
+        else match t2 with
+          | [] => false
+          | z :: t3 =>
+            if threeOk x y then isCont z && validUtf8b t3
+            else match t3 with
+              | [] => false
+              | w :: t4 => fourOk x y && isCont z && isCont w && validUtf8b t4
 
 end Mv.Snippet
